@@ -225,7 +225,7 @@ func rawSweep3Skip(c *Ctx) {
 	c.AddEvals(n)
 }
 
-func checkC03TTHeader(c *Ctx) {} // replaced when the TTHeader family is present
+func checkC03TTHeader(c *Ctx) { c.TraceCheck(famTTHC03, tthHostileCases(c)) }
 
 func init() {
 	checks["C03"] = checkC03
